@@ -15,6 +15,7 @@ import mutate as M  # noqa: E402
 
 from openjd.model import (  # noqa: E402
     DecodeValidationError, create_job, decode_environment_template, decode_job_template, model_to_object, parse_model,
+    preprocess_job_parameters,
 )
 from openjd.model.v2023_09 import Job  # noqa: E402
 
@@ -207,11 +208,53 @@ class C17(core.PropBase):
             except DecodeValidationError:
                 back = "redecode-rejected"
             res = ["ok", self._observe(obj, case["doc"], back)]
+            # ... and the export is a function of the model alone: after the model has been USED (merged with other templates'
+            # definitions of its parameters, instantiated into a Job) it exports as before
+            self._use(case, m)
+            try:
+                res[1]["after_use"] = canon(model_to_object(model=m)) == res[1]["obj"]
+            except BaseException as e:  # noqa: BLE001
+                res[1]["after_use"] = "raise:" + type(e).__name__
             if "mut" in case:
                 case["_res"] = res
             return res
         except BaseException as e:  # noqa: BLE001
             return ["raise", type(e).__name__, str(e)[:200]]
+
+    @staticmethod
+    def _use(case, m):
+        """what a caller does with a decoded template; every failure is somebody else's business"""
+        doc = case["doc"]
+        try:
+            pds = [d for d in (doc.get("parameterDefinitions") or []) if isinstance(d, dict)]
+            other = []
+            for d in pds:
+                q = {k: v for k, v in d.items() if k in ("name", "type", "allowedValues", "minValue", "maxValue", "minLength", "maxLength")}
+                if isinstance(q.get("allowedValues"), list) and len(q["allowedValues"]) >= 2:
+                    q["allowedValues"] = q["allowedValues"][: (len(q["allowedValues"]) + 1) // 2]
+                other.append(q)
+            if case["kind"] == "env":
+                jt = decode_job_template(template={"specificationVersion": "jobtemplate-2023-09", "name": "J", "parameterDefinitions": other or None,
+                                                   "steps": [{"name": "S", "script": {"actions": {"onRun": {"command": "c"}}}}]} if other else
+                                         {"specificationVersion": "jobtemplate-2023-09", "name": "J", "steps": [{"name": "S", "script": {"actions": {"onRun": {"command": "c"}}}}]})
+                envs, vals = [m], {}
+            else:
+                jt = m
+                envs = [decode_environment_template(template={"specificationVersion": "environment-2023-09", "parameterDefinitions": other,
+                                                              "environment": {"name": "Used", "variables": {"A": "b"}}})] if other else []
+                vals = {}
+            for ee in ([envs, list(reversed(envs))] if envs else [[]]):
+                try:
+                    preprocess_job_parameters(job_template=jt, job_parameter_values=dict(vals), job_template_dir=Path("/t"), current_working_dir=Path("/c"),
+                                              environment_templates=ee or None)
+                except Exception:  # noqa: BLE001
+                    pass
+                try:
+                    create_job(job_template=jt, job_parameter_values={}, environment_templates=ee or None)
+                except Exception:  # noqa: BLE001
+                    pass
+        except Exception:  # noqa: BLE001
+            pass
 
     def requests(self, case):
         if case["kind"] == "jobobj":
@@ -263,7 +306,7 @@ class C17(core.PropBase):
         o, ok, faithful = r[1]
         # faithful: the extracted decision function jequivb (proved sound and complete for jequiv, and true of every
         # accepted document by C17_faithful_decided) on the source document and the model's export
-        return ["ok", {"obj": renorm(core.from_wire(o)), "plain": True, "json": True, "yaml": True, "faithful": faithful == "true", "redecode": ok == "true"}]
+        return ["ok", {"obj": renorm(core.from_wire(o)), "plain": True, "json": True, "yaml": True, "faithful": faithful == "true", "redecode": ok == "true", "after_use": True}]
 
     def classify_case(self, case, obs):
         return [case["kind"] + (":mutant" if "mut" in case else "") + ":" + (obs[0] if obs[0] != "skip" else "skip:" + obs[1])]
